@@ -71,4 +71,18 @@ theorem hasDerivAt_mul_exp (f g : ℝ → ℝ) (f' g' x : ℝ) (hf : HasDerivAt 
     HasDerivAt (fun x => f x * exp (g x)) (f' * exp (g x) + f x * (exp (g x) * g')) x :=
   hf.mul hg.exp
 
+theorem hd_lin (a b x : ℝ) : HasDerivAt (fun x : ℝ => a * x + b) a x := by
+  simpa using ((hasDerivAt_id x).const_mul a).add_const b
+
+theorem hd_sq (c r x : ℝ) : HasDerivAt (fun x : ℝ => c * (r - x) * (r - x)) (-(2 * c * (r - x))) x := by
+  have h1 : HasDerivAt (fun x : ℝ => r - x) (-1) x := by simpa using (hasDerivAt_id x).const_sub r
+  have := ((h1.const_mul c).mul h1)
+  refine this.congr_deriv ?_
+  ring
+
+/-- `C + f · exp ∘ g` -/
+theorem hasDerivAt_gauss (C : ℝ) (f g : ℝ → ℝ) (f' g' x : ℝ) (hf : HasDerivAt f f' x) (hg : HasDerivAt g g' x) :
+    HasDerivAt (fun x => C + f x * exp (g x)) (f' * exp (g x) + f x * (exp (g x) * g')) x :=
+  (hasDerivAt_mul_exp f g f' g' x hf hg).const_add C
+
 end Votca.C07
